@@ -32,9 +32,23 @@ class SP:
         return coo_from_triple(vals, rows, cols, shape, "csc")
 
     @staticmethod
-    def csc_matrix(m):
-        return m
+    def _convert(arg, shape, fmt):
+        """csr_matrix(M) / csc_matrix(M): the same matrix in the requested storage; csr_matrix((data, indices, indptr)) built from the
+        raw buffers of ONE matrix: the same matrix if the buffers were in that storage, its TRANSPOSE if they were in the other one"""
+        from ..arr import SparseBuf
+        if isinstance(arg, COO):
+            return arg._as(fmt)
+        if isinstance(arg, tuple) and len(arg) == 3 and all(isinstance(b, SparseBuf) for b in arg):
+            d, i, p = arg
+            if not (d.owner is i.owner is p.owner and (d.role, i.role, p.role) == ("data", "indices", "indptr")):
+                raise Unsupported("compressed sparse constructor from mixed buffers")
+            return d.owner._as(fmt) if d.fmt == fmt else d.owner.transposed(fmt)
+        raise Unsupported(f"sparse constructor from {type(arg).__name__}")
 
     @staticmethod
-    def csr_matrix(m):
-        return m
+    def csc_matrix(arg, shape=None):
+        return SP._convert(arg, shape, "csc")
+
+    @staticmethod
+    def csr_matrix(arg, shape=None):
+        return SP._convert(arg, shape, "csr")
